@@ -83,7 +83,7 @@ def main():
         version=1,
         setup_cmd="./setup.sh",
         hooks=dict(guard="none", enable="no source hooks: every check copies /repo/chitchat into a scratch crate under /verif/.work, rewrites environment imports to /verif/models/vstd.rs and appends #[cfg(kani)] harness modules",
-                   baseline_off_cmd="cd /repo && cargo test --workspace --no-fail-fast --offline", source_commits=[], add_only=True),
+                   baseline_off_cmd="cd /repo && RUSTUP_TOOLCHAIN=1.88.0 cargo test --workspace --no-fail-fast --offline", source_commits=[], add_only=True),
         engines=[dict(name="kani-cbmc", path="/verif/check", serves_properties=sorted(claimed),
                       kind_free_text="Kani 0.68 compiler (cargo kani --only-codegen) + goto-instrument + CBMC 6.11 driven directly (vlib/kani.py); cadical SAT back end")],
         checks=checks,
